@@ -2,6 +2,7 @@ import Driver.Offsets
 import Driver.Tracker
 import Driver.Params
 import Driver.Recovery
+import Driver.Receiver
 /-!
 fbdriver: reads `<id>\t<input>\t<impl observation>` lines on stdin, runs the model of the chosen
 component on `<input>` and prints one verdict line per case:
@@ -19,6 +20,7 @@ def dispatch (comp : String) : Option (String → String → Verdict) :=
   | "tracker" => some Tracker.check
   | "params" => some Params.check
   | "recovery" => some Recovery.check
+  | "receiver" => some Receiver.check
   | _ => none
 
 partial def loop (h : IO.FS.Stream) (out : IO.FS.Stream) (f : String → String → Verdict) : IO Unit := do
